@@ -27,6 +27,11 @@ GoCall == /\ Ev.ev = "gocall" /\ st[Ev.i] = "none" /\ st' = [st EXCEPT ![Ev.i] =
           /\ UNCHANGED <<cap, ret, pan, handled, waitset, waiter, cfgh, nh>>
 GoRet == /\ Ev.ev = "goret" /\ st[Ev.i] # "none" /\ ret' = ret \cup {Ev.i}
          /\ UNCHANGED <<cap, st, pan, handled, waitset, waiter, cfgh, hat, nh>>
+\* a nil function was submitted (only in scenarios without an observing handler): it never runs; the library must
+\* account for it as for a function that panicked
+NilFn == /\ Ev.ev = "nilfn" /\ st[Ev.i] = "called" /\ nh
+         /\ st' = [st EXCEPT ![Ev.i] = "out"] /\ pan' = pan \cup {Ev.i}
+         /\ UNCHANGED <<cap, ret, handled, waitset, waiter, cfgh, hat, nh>>
 \* a submitted function starts: exactly once, and never while `cap` functions are inside
 Enter == /\ Ev.ev = "enter" /\ st[Ev.i] = "called"
          /\ Cardinality(Inside) < cap
@@ -49,7 +54,7 @@ WaitRet == /\ Ev.ev = "waitret" /\ waiter = "waiting"
 End == /\ Ev.ev = "end" /\ \A t \in T : st[t] \in {"none", "out"} /\ ((t \in pan /\ ~nh) => t \in handled)
        /\ Ev.submitted = Cardinality({t \in T : st[t] = "out"})
        /\ UNCHANGED <<cap, st, ret, pan, handled, waitset, waiter, cfgh, hat, nh>>
-Next == l <= Len(Trace) /\ l' = l + 1 /\ (New \/ SetHandler \/ GoCall \/ GoRet \/ Enter \/ Exit \/ Handler \/ WaitCall \/ WaitRet \/ End)
+Next == l <= Len(Trace) /\ l' = l + 1 /\ (New \/ SetHandler \/ NilFn \/ GoCall \/ GoRet \/ Enter \/ Exit \/ Handler \/ WaitCall \/ WaitRet \/ End)
 vars == <<cap, st, ret, pan, handled, waitset, waiter, l, cfgh, hat, nh>>
 Spec == Init /\ [][Next]_vars
 Accepted == TLCGet("stats").diameter - 1 = Len(Trace)
